@@ -355,6 +355,28 @@ def next_power_2(value: int) -> int:
     return start
 
 
+def hash_bytes(value) -> bytes:
+    """
+    Return a hash string taken from a decoded metafile as bytes.
+
+    The decoder returns byte strings that happen to be valid UTF-8 as text;
+    piece hashes and merkle roots have to be compared as bytes.
+
+    Parameters
+    ----------
+    value : str | bytes
+        the decoded hash string
+
+    Returns
+    -------
+    bytes
+        the same hash string as raw bytes
+    """
+    if isinstance(value, str):
+        return value.encode("utf-8")
+    return value
+
+
 def copypath(source: str, dest: str) -> None:
     """
     Copy the file located at source to dest.
